@@ -855,6 +855,11 @@ class CeiloChunk(AbstractChunk):
             # What are the valid points ?
             valids = tmp['height'].notna() * valids
 
+            # A bundle with fewer than 2 hits cannot be clustered (and need not be): its hit(s) will
+            # simply inherit their slice id below.
+            if valids.sum() < 2:
+                continue
+
             # Run the clustering
             nlabels, labels = cluster.clusterize(
                 tmp[['dt', 'height']][valids].to_numpy(), algo='agglomerative',
